@@ -419,12 +419,13 @@ func (e *env) generate(seq int) {
 			nextTask++
 			tasks = append(tasks, nextTask)
 			pay++
-			e.add(nextTask, 1, pay, 0)
+			// what is replayed to later subscribers is decided by broadcast-vs-targeted, not by the kind of request
+			e.add(nextTask, []int{1, 1, 1, 3, 5}[r.Intn(5)], pay, 0)
 		case k < 5:
 			nextTask++
 			tasks = append(tasks, nextTask)
 			pay++
-			e.add(nextTask, []int{3, 5}[r.Intn(2)], pay, 1+r.Intn(4))
+			e.add(nextTask, []int{3, 5, 1}[r.Intn(3)], pay, 1+r.Intn(4))
 		case k < 8:
 			e.sub(1 + r.Intn(4))
 		case k == 8:
